@@ -270,7 +270,7 @@ func makeIterator(value any) iterable {
 	case reflect.Map:
 		rv := reflect.ValueOf(value)
 		array := make([][]any, rv.Len())
-		for i, k := range rv.MapKeys() {
+		for i, k := range values.SortedMapKeys(rv) {
 			v := rv.MapIndex(k)
 			array[i] = []any{k.Interface(), v.Interface()}
 		}
